@@ -186,6 +186,28 @@ func (g *gen) constLines(prefix string, n int) []string {
 	return out
 }
 
+// collidingFiles: n directories d0..d(n-1), each with a `common.thrift` in the SAME go namespace (so all of them
+// map to the output file <ns>/common.go and the file manager has to rename all but the first) and a link file
+// that includes it; the caller includes the link files, so each common.thrift is reached by its own chain.
+func collidingFiles(idx, n int) (files []IDLFile, includes, refs []string) {
+	for k := 0; k < n; k++ {
+		d := fmt.Sprintf("d%d", k)
+		files = append(files,
+			IDLFile{Name: d + "/common.thrift", Lines: []string{
+				fmt.Sprintf("namespace go p%d.collide", idx),
+				fmt.Sprintf("struct Common%d { 1: string a, 2: i32 n%d }", k, k),
+				fmt.Sprintf("enum CKind%d { X = 1, Y = %d }", k, k+2),
+				fmt.Sprintf(`const map<string,i32> CLIM%d = {"a": 1, "b": %d}`, k, k+2)}},
+			IDLFile{Name: fmt.Sprintf("%s/link%d_%d.thrift", d, idx, k), Lines: []string{
+				`include "common.thrift"`,
+				fmt.Sprintf("namespace go p%d.link%d", idx, k),
+				fmt.Sprintf("struct Link%d { 1: common.Common%d c, 2: common.CKind%d k }", k, k, k)}})
+		includes = append(includes, fmt.Sprintf(`include "%s/link%d_%d.thrift"`, d, idx, k))
+		refs = append(refs, fmt.Sprintf("link%d_%d.Link%d", idx, k, k))
+	}
+	return
+}
+
 // genProg builds one program: 0..3 include files and a main file.
 func genProg(r *vl.Rng, idx int, stats map[string]int) Prog {
 	g := &gen{r: r, stats: stats}
@@ -234,6 +256,15 @@ func genProg(r *vl.Rng, idx int, stats map[string]int) Prog {
 		refs = append(refs, fmt.Sprintf("%s.IS%d", base, i))
 		enums = append(enums, fmt.Sprintf("%s.IE%d", base, i))
 		excs = append(excs, fmt.Sprintf("%s.IX%d", base, i))
+	}
+	if r.Chance(45) { // IDLs in different directories that map to one output file
+		n := 2 + r.Intn(2)
+		cf, inc, rf := collidingFiles(idx, n)
+		incs = append(incs, cf...)
+		main.Lines = append(main.Lines, inc...)
+		refs = append(refs, rf...)
+		stats["programs_with_colliding_output_paths"]++
+		stats["colliding_files"] += n
 	}
 	main.Lines = append(main.Lines, g.namespaces(fmt.Sprintf("p%d.main", idx))...)
 	main.Lines = append(main.Lines, g.constLines("M", 2+r.Intn(5))...)
